@@ -98,7 +98,7 @@ Inductive lex_result :=
 (* Lexer.string(quoteChar): called with pos just after the opening quote *)
 Definition lex_string (q : byte) (l : lexer) : lex_result :=
   match scan_to q (lrest l) with
-  | None => LexErr (lstart l + 1) (mkLexer [] (lpos l + length (lrest l)) (lstart l))
+  | None => LexErr (lstart l) (mkLexer [] (lpos l + length (lrest l)) (lstart l))   (* at the opening quote *)
   | Some (n, rest) =>
     let start' := S (lstart l) in
     let pos' := lpos l + n + 1 in
@@ -135,7 +135,7 @@ Fixpoint lookup_op1 (tbl : list (byte * tag)) (c : byte) : option tag :=
 Definition lex_next (l0 : lexer) : lex_result :=
   let '(s, pos) := skip_ws (lrest l0) (lpos l0) in
   match s with
-  | [] => LexTok (simple TEOF (lstart l0)) (mkLexer [] pos (lstart l0))
+  | [] => LexTok (simple TEOF pos) (mkLexer [] pos pos)        (* tokenStart = pos: the end of the text *)
   | c :: s' =>
     let l := mkLexer s pos pos in               (* tokenStart = pos *)
     if N.eqb c 10 then LexTok (simple TNewline pos) (mkLexer s' (S pos) pos)
@@ -192,7 +192,10 @@ Fixpoint line_col_scan (s : bytes) (i : nat) (pos : nat)
   : bytes * nat * Z :=
   (* cur = bytes of the current line seen so far, reversed *)
   match s with
-  | [] => (rev cur, line, col)
+  | [] =>
+    (* the end of the text is just past the last byte of the last line *)
+    if (negb in_line && Nat.leb i pos)%bool then (rev cur, line, (Z.of_nat i - Z.of_nat line_start)%Z)
+    else (rev cur, line, col)
   | c :: s' =>
     if N.eqb c 10 then
       if in_line then (rev cur, line, col)
